@@ -105,10 +105,11 @@ class World(object):
         """The abstract index in the docnum order of `reader` (read back through
         stored keys - the only thing taken from the implementation)."""
         docs = []
+        bounds = [off for _, off in reader.leaf_readers()]
         for dn in range(reader.doc_count_all()):
             k = reader.stored_fields(dn)["key"]
             d = self.adocs[k]
-            docs.append({"live": not reader.is_deleted(dn),
+            docs.append({"live": not reader.is_deleted(dn), "seg": sum(1 for b in bounds if b <= dn),
                          "t": {f: d["t"].get(f, []) for f in TEXT_FIELDS},
                          "n": {f: d["n"].get(f, []) for f in NUM_FIELDS},
                          "b4": d.get("b4", 4), "key": k})
@@ -170,6 +171,10 @@ def to_query(a):
     if op == "numrange":
         return query.NumericRange(a["f"], a["lo"] if a["haslo"] else None, a["hi"] if a["hashi"] else None,
                                   startexcl=a["loexcl"], endexcl=a["hiexcl"], boost=b)
+    if op == "nestedparent":
+        return query.NestedParent(to_query(a["p"]), to_query(a["q"]))
+    if op == "nestedchildren":
+        return query.NestedChildren(to_query(a["p"]), to_query(a["q"]))
     if op == "sequence":
         return query.Sequence([to_query(k) for k in a["kids"]], slop=a["slop"], ordered=a["ordered"])
     if op.startswith("span"):
@@ -188,6 +193,17 @@ def to_query(a):
                "spancond": spans.SpanCondition}[op]
         return cls(to_query(a["a"]), to_query(a["b"]))
     raise ValueError(op)
+
+
+def rand_nested_query(rng):
+    """NestedParent / NestedChildren over arbitrary 'parent' and sub-queries (inputs only)."""
+    term = lambda: {"op": "term", "f": rng.choice(TEXT_FIELDS), "t": rand_term(rng, 2, 1), "b4": 4}
+    sub = lambda: rand_query(rng, rng.randrange(0, 2), scored_only=True, ops=["term", "or", "and", "every"])
+    p = rng.choice([term(), term(), sub()])
+    if rng.random() < 0.5:
+        return {"op": "nestedparent", "p": p, "q": sub()}
+    # NestedChildren: the sub-query selects among the parent documents
+    return {"op": "nestedchildren", "p": p, "q": {"op": "and", "kids": [p, sub()], "b4": 4}}
 
 
 def rand_span_query(rng, depth, f=None, nletters=2, maxlen=2):
